@@ -30,6 +30,7 @@ def _conjuncts(e: ast.AST) -> Set[str]:
 
 
 def _resolution_sites(fn: ast.FunctionDef) -> List[ast.If]:
+    """the statements that start a deprecated-name resolution: the (outermost) `if` under which the new name is looked up"""
     sites = []
     for n in ast.walk(fn):
         if isinstance(n, ast.If):
@@ -39,123 +40,155 @@ def _resolution_sites(fn: ast.FunctionDef) -> List[ast.If]:
     return sorted(sites, key=lambda n: n.lineno)
 
 
-def _steps(site: ast.If) -> Dict[str, object]:
-    """Abstract steps of one resolution block."""
-    out: Dict[str, object] = {"guard": frozenset(_conjuncts(site.test))}
-    src = [ast.unparse(s) for s in site.body]
-    out["lookup"] = any(s.replace(" ", "") == "new_name=self._deprecated_options.get_new_option(name)" for s in src)
-    inner = [n for n in ast.walk(site) if isinstance(n, ast.If) and ast.unparse(n.test) == "new_sym and new_sym.nodes"]
-    out["target_defined"] = bool(inner)
-    gate = [n for n in ast.walk(site) if isinstance(n, ast.If) and ast.unparse(n.test) == "new_name"]
-    out["name_found_gate"] = bool(gate)
-    rebind: Set[str] = set()
-    inv_subject = None
-    if inner:
-        for s in ast.walk(inner[0]):
-            if isinstance(s, ast.Assign) and isinstance(s.targets[0], ast.Name):
-                t, v = s.targets[0].id, ast.unparse(s.value)
-                if (t, v) in (("sym", "new_sym"), ("name", "new_name"), ("value_is_default", "False")):
-                    rebind.add(t)
-            if isinstance(s, ast.Call) and ast.unparse(s.func).endswith("is_inversion") and s.args:
-                inv_subject = ast.unparse(s.args[0])
-        # the three rebinding statements are unconditional inside the inner block
-        top = {ast.unparse(s.targets[0]) for s in inner[0].body if isinstance(s, ast.Assign)}
-        out["rebind_unconditional"] = {"sym", "name", "value_is_default"} <= top
-    out["rebind"] = frozenset(rebind)
-    out["inversion_subject"] = inv_subject
+REQUIRED = "(not sym or not sym.nodes) and not in_deprecated_block and self._deprecated_options and new_name and new_sym and new_sym.nodes"
+SUBJECTS = {"sym", "new_sym", "new_name", "name", "in_deprecated_block", "val", "value_is_default"}
+
+
+def _rebinds(fn: ast.AST) -> List[ast.Assign]:
+    return sorted([n for n in ast.walk(fn) if isinstance(n, ast.Assign) and len(n.targets) == 1 and ast.unparse(n.targets[0]) == "sym"
+                   and ast.unparse(n.value) == "new_sym"], key=lambda n: n.lineno)
+
+
+def _steps(f, fl, res, r: ast.Assign) -> Dict[str, object]:
+    """what happens at one resolution site, read at the statement that rebinds `sym` to the replacement: the condition
+    under which it runs (guards there, plus the guards of the assignments that can have made `new_sym` / `new_name`
+    truthy), where the new name and symbol come from, and what is rebound together with it"""
+    from .common import effective_guards, facts_vs_formula, reaching_assignments
+    out: Dict[str, object] = {}
+    eg = effective_guards(fl, res, f.node, r)
+    rel = {(k, p) for k, p in eg if ({x.id for x in ast.walk(_pk(k)) if isinstance(x, ast.Name)} & SUBJECTS) or "_deprecated_options" in k}
+    # the line's own match tests (`match`, `val`, ...) belong to the arm, not to the resolution: only facts over the
+    # resolution's subjects are compared
+    rel = {(k, p) for k, p in rel if not any(w in k for w in ("match", "_is_deprecated"))}
+    imp, extra = facts_vs_formula(rel, REQUIRED)
+    out["implies_required"] = imp
+    out["extra_atoms"] = frozenset(f"{'' if p else 'not '}({k})" for k, p in extra)
+    out["guard"] = frozenset(f"{'' if p else 'not '}({k})" for k, p in rel)
+    nn = reaching_assignments(f.node, r, "new_name")
+    out["lookup"] = bool(nn) and all("self._deprecated_options.get_new_option(name)" in ast.unparse(d.value) or
+                                     (isinstance(d.value, ast.Constant) and d.value.value is None) for d in nn) and \
+        any("get_new_option(name)" in ast.unparse(d.value) for d in nn)
+    ns = reaching_assignments(f.node, r, "new_sym")
+    out["target_lookup"] = bool(ns) and all("get_sym(new_name)" in ast.unparse(d.value) or "self.syms.get(new_name)" in ast.unparse(d.value)
+                                            or (isinstance(d.value, ast.Constant) and d.value.value is None) for d in ns)
+    # siblings of the rebinding statement
+    par = None
+    for n in ast.walk(f.node):
+        for fld in ("body", "orelse"):
+            b = getattr(n, fld, None)
+            if isinstance(b, list) and any(x is r for x in b):
+                par = b
+    top = {ast.unparse(s.targets[0]): ast.unparse(s.value) for s in (par or []) if isinstance(s, ast.Assign) and len(s.targets) == 1}
+    out["rebind"] = frozenset(t for t, v in top.items() if (t, v) in (("sym", "new_sym"), ("name", "new_name"), ("value_is_default", "False")))
+    inv = [c for s in (par or []) for c in ast.walk(s) if isinstance(c, ast.Call) and ast.unparse(c.func).endswith("is_inversion") and c.args]
+    out["inversion_subject"] = ast.unparse(inv[0].args[0]) if inv else None
+    # the inversion must be looked up before `name` is rebound
+    nm = [s for s in (par or []) if isinstance(s, ast.Assign) and ast.unparse(s.targets[0]) == "name"]
+    out["inversion_before_rebind"] = all(c.lineno < nm[0].lineno for c in inv) if inv and nm else True
+    out["_block"] = par
     return out
 
 
+def _pk(k: str) -> ast.AST:
+    from .common import parse_key
+    return parse_key(k)
+
+
 def r11_1(ctx):
-    """R11.1 the two deprecated-name resolution sites in _load_config agree: same guard (no *defined* symbol of that name,
-    outside the deprecated block, rename tables loaded) and same steps (get_new_option, target defined, inversion looked
-    up for the old name, rebind sym and name, clear value_is_default)."""
+    """R11.1 the two deprecated-name resolution sites in _load_config agree: each rebinds sym/name/value_is_default exactly
+    when there is no *defined* symbol of that name, the line is outside the deprecated block, the rename tables are loaded
+    and the looked-up replacement is a defined symbol - whatever the nesting of the tests; the new name comes from
+    get_new_option(name), the inversion is looked up for the old name."""
     repo = ctx.repo
     f = repo.func(f"{CORE}:Kconfig._load_config")
     ctx.analysed(f.qual)
-    sites = _resolution_sites(f.node)
-    if len(sites) != 2:
-        raise AnchorError(f"_load_config: expected 2 deprecated-name resolution sites, found {len(sites)}")
-    steps = [_steps(s) for s in sites]
+    res = Resolver(f.node)
+    fl = Flow(f.node, resolver=res).run()
+    rb = _rebinds(f.node)
+    if len(rb) != 2:
+        raise AnchorError(f"_load_config: expected 2 deprecated-name resolution sites (`sym = new_sym`), found {len(rb)}")
+    steps = [_steps(f, fl, res, r) for r in rb]
     labels = ["assignment lines", "`is not set` lines"]
-    want_guard = frozenset({"not sym or not sym.nodes", "not in_deprecated_block", "self._deprecated_options"})
-    for s, st, lab in zip(sites, steps, labels):
+    for r, st, lab in zip(rb, steps, labels):
         construct = f"Kconfig._load_config/resolution for {lab}: guard"
-        if st["guard"] == want_guard:
-            ctx.ok(construct, f.loc(s), guard=sorted(st["guard"]))
+        if st["implies_required"] and not st["extra_atoms"]:
+            ctx.ok(construct, f.loc(r), guard=sorted(st["guard"]))
         else:
-            ctx.bad(construct, f"guard is {sorted(st['guard'])}; a name that exists only as an undefined (node-less) symbol, or inside the "
-                    f"deprecated block, is no longer (or wrongly) resolved - expected {sorted(want_guard)}", f.loc(s))
+            ctx.bad(construct, f"the replacement is taken under {sorted(st['guard'])}: "
+                    + ("a name that exists only as an undefined (node-less) symbol, or inside the deprecated block, or whose replacement is not a "
+                       "defined option is (wrongly) resolved" if not st["implies_required"] else
+                       f"the resolution additionally depends on {sorted(st['extra_atoms'])} - the deprecated name no longer behaves like the new one"),
+                    f.loc(r))
         construct = f"Kconfig._load_config/resolution for {lab}: steps"
         msgs = []
         if not st["lookup"]:
             msgs.append("new name not taken from get_new_option(name)")
-        if not st["name_found_gate"] or not st["target_defined"]:
-            msgs.append("target not checked to be a defined symbol")
-        if st["rebind"] != frozenset({"sym", "name", "value_is_default"}) or not st.get("rebind_unconditional"):
+        if not st["target_lookup"]:
+            msgs.append("replacement symbol not looked up under the new name")
+        if st["rebind"] != frozenset({"sym", "name", "value_is_default"}):
             msgs.append(f"rebinding incomplete or conditional: {sorted(st['rebind'])}")
-        if st["inversion_subject"] != "name":
-            msgs.append(f"inversion looked up for `{st['inversion_subject']}` instead of the deprecated name")
-        (ctx.bad(construct, "; ".join(msgs), f.loc(s)) if msgs else ctx.ok(construct, f.loc(s)))
+        if st["inversion_subject"] != "name" or not st["inversion_before_rebind"]:
+            msgs.append(f"inversion looked up for `{st['inversion_subject']}`{'' if st['inversion_before_rebind'] else ' after name was rebound'} instead of the deprecated name")
+        (ctx.bad(construct, "; ".join(msgs), f.loc(r)) if msgs else ctx.ok(construct, f.loc(r)))
     construct = "Kconfig._load_config/both resolution sites agree"
-    diff = {k: (steps[0][k], steps[1][k]) for k in steps[0] if steps[0][k] != steps[1][k]}
-    (ctx.bad(construct, f"the two sites differ in {diff}", f.loc(sites[1])) if diff else ctx.ok(construct, f.loc(sites[0])))
+    keys = ("implies_required", "extra_atoms", "lookup", "target_lookup", "rebind", "inversion_subject")
+    diff = {k: (steps[0][k], steps[1][k]) for k in keys if steps[0][k] != steps[1][k]}
+    (ctx.bad(construct, f"the two sites differ in {diff}", f.loc(rb[1])) if diff else ctx.ok(construct, f.loc(rb[0])))
     # inversion semantics
-    a, u = sites
+    a_blk, u_blk = steps[0]["_block"] or [], steps[1]["_block"] or []
     construct = "Kconfig._load_config/assignment through an inverted alias swaps y and n for bools only"
-    inv = [n for n in ast.walk(a) if isinstance(n, ast.If) and "is_inversion(name)" in ast.unparse(n.test)]
+    inv = [n for s in a_blk for n in ast.walk(s) if isinstance(n, ast.If) and "is_inversion(name)" in ast.unparse(n.test)]
     ok = bool(inv) and "new_sym.orig_type == BOOL" in _conjuncts(inv[0].test) and \
         any(isinstance(s, ast.Assign) and ast.unparse(s.targets[0]) == "val" and ast.unparse(s.value).replace('"', "'") == "'n' if val.startswith('y') else 'y'"
             for s in inv[0].body)
-    (ctx.ok(construct, f.loc(inv[0])) if ok else ctx.bad(construct, "the y/n swap for inverted aliases changed", f.loc(a)))
+    (ctx.ok(construct, f.loc(inv[0])) if ok else ctx.bad(construct, "the y/n swap for inverted aliases changed", f.loc(rb[0])))
     construct = "Kconfig._load_config/an inverted alias inverts only what the bool check accepts"
     conj = [c.replace('"', "'") for c in _conjuncts(inv[0].test)] if inv else []
     (ctx.ok(construct, f.loc(inv[0])) if any(c in ("val.startswith(('y', 'n'))", "val.startswith(('n', 'y'))", "val[0] in ('y', 'n')", "val[:1] in ('y', 'n')") for c in conj) else
      ctx.bad(construct, "any text that does not start with `y` is turned into `y` before the bool check sees it: `CONFIG_OLD=foo` sets the replacement to y "
-             "while `CONFIG_NEW=foo` is rejected", f.loc(inv[0]) if inv else f.loc(a)))
+             "while `CONFIG_NEW=foo` is rejected", f.loc(inv[0]) if inv else f.loc(rb[0])))
     construct = "Kconfig._load_config/`not set` on an inverted alias means y"
-    src_u = ast.unparse(u)
     uses = [n for n in ast.walk(f.node) if isinstance(n, ast.Assign) and ast.unparse(n.targets[0]) == "val" and "_deprecated_unset_val" in ast.unparse(n.value)]
-    ok = "_deprecated_unset_val = 'y'" in src_u and bool(uses) and \
+    sets = [n for s in u_blk for n in ast.walk(s) if isinstance(n, ast.Assign) and ast.unparse(n.targets[0]) == "_deprecated_unset_val"
+            and ast.unparse(n.value).replace('"', "'") == "'y'"]
+    ok = bool(sets) and bool(uses) and \
         ast.unparse(uses[0].value).replace('"', "'") == "_deprecated_unset_val if _deprecated_unset_val is not None else 'n'"
     if ok:
-        sets = [n for n in ast.walk(u) if isinstance(n, ast.Assign) and ast.unparse(n.targets[0]) == "_deprecated_unset_val"]
-        gs = Flow(f.node, body=[u]).run().guards_at(sets[0]) or set()
+        gs = fl.guards_at(sets[0]) or set()
         ok = any(k in ("is_inv", "self._deprecated_options.is_inversion(name)") and p for k, p in gs)
-    (ctx.ok(construct, f.loc(u)) if ok else ctx.bad(construct, "unset lines of inverted aliases no longer load as y", f.loc(u)))
+    (ctx.ok(construct, f.loc(rb[1])) if ok else ctx.bad(construct, "unset lines of inverted aliases no longer load as y", f.loc(rb[1])))
 
 
 def r11_2(ctx):
-    """R11.2 unknown-symbol reports come after resolution: every call of _undef_assign in the line loop is preceded, in the
-    same arm, by the deprecated-name resolution block, and is guarded by `not sym or not sym.nodes`."""
+    """R11.2 unknown-symbol reports come after resolution: every call of _undef_assign in the line loop comes, in its arm,
+    after the statement that rebinds `sym` to the replacement (so a resolved name is never reported), and is guarded by
+    the undefined-symbol test on the (possibly rebound) `sym`."""
+    from .common import facts_vs_formula
     repo = ctx.repo
     f = repo.func(f"{CORE}:Kconfig._load_config")
-    sites = _resolution_sites(f.node)
+    rb = _rebinds(f.node)
     calls = [n for n in ast.walk(f.node) if isinstance(n, ast.Call) and ast.unparse(n.func) == "self._undef_assign"]
-    if len(calls) < 2:
-        raise AnchorError("_load_config: _undef_assign calls not found")
-    fl = Flow(f.node).run()
+    if len(calls) < 2 or len(rb) < 2:
+        raise AnchorError("_load_config: _undef_assign calls / resolution sites not found")
+    marks = {id(r): "resolved" for r in rb}
+
+    def ev(st):
+        return ["resolved"] if id(st) in marks else []
+    # may-analysis: the rebind statement lies on some path to the report, i.e. it is not placed after it
+    fl_may = Flow(f.node, events=ev, track_guards=False, must=False).run()
+    fl = Flow(f.node, resolver=Resolver(f.node)).run()
     for i, c in enumerate(sorted(calls, key=lambda n: n.lineno)):
         construct = f"Kconfig._load_config/_undef_assign #{i + 1} after deprecated-name resolution"
-        # the If that contains the call and the resolution block must be siblings, resolution first
-        holder = repo.enclosing_stmt(c)
-        par = repo.parent(holder)
-        while par is not None and not any(s in getattr(par, "body", []) + getattr(par, "orelse", []) for s in sites):
-            holder = par
-            par = repo.parent(par)
-        ok = False
-        if par is not None:
-            for fld in ("body", "orelse"):
-                b = getattr(par, fld, [])
-                sib = [s for s in sites if s in b]
-                if sib and holder in b and b.index(sib[0]) < b.index(holder):
-                    ok = True
+        st = repo.enclosing_stmt(c)
+        evs = fl_may.events_at(st) or set()
+        ok = "resolved" in evs
         gs = fl.guards_at(c) or set()
-        guarded = ("not sym or not sym.nodes", True) in gs
-        if ok and guarded:
+        rel = {(k, p) for k, p in gs if {x.id for x in ast.walk(_pk(k)) if isinstance(x, ast.Name)} == {"sym"}}
+        imp, _ = facts_vs_formula(rel, "not sym or not sym.nodes") if rel else (False, set())
+        if ok and imp:
             ctx.ok(construct, f.loc(c))
         else:
-            ctx.bad(construct, f"resolution precedes: {ok}; guarded by undefined-symbol test: {guarded} - a deprecated name is reported as an "
+            ctx.bad(construct, f"resolution precedes: {ok}; guarded by undefined-symbol test: {imp} - a deprecated name is reported as an "
                     "unknown symbol", f.loc(c))
 
 
@@ -274,14 +307,21 @@ def r11_6(ctx):
     (ctx.ok(construct, pr.loc(loops[0])) if loops else ctx.bad(construct, f"no loop over the parameter(s) {prm} as given (filtered, sorted or de-duplicated)", pr.loc()))
     f = repo.func(f"{CORE}:Kconfig._load_config")
     ctx.analysed(f.qual)
-    blocks = [n for n in ast.walk(f.node) if isinstance(n, ast.If) and isinstance(n.test, ast.Name) and n.test.id == "new_name"]
-    if len(blocks) < 2:
-        blocks = [n for n in ast.walk(f.node) if isinstance(n, ast.If) and "get_new_option(" in ast.unparse(n.test)] + blocks
-    if len(blocks) < 2:
-        raise AnchorError(f"_load_config: {len(blocks)} deprecated-name resolution blocks found, 2 expected")
-    for i, b in enumerate(blocks):
+    # the statements of a resolution: from the lookup of the new name to the rebinding of `sym`, with everything nested
+    rb = _rebinds(f.node)
+    lookups = sorted([n for n in ast.walk(f.node) if isinstance(n, ast.Assign) and "get_new_option(" in ast.unparse(n.value)], key=lambda n: n.lineno)
+    if len(rb) < 2 or len(lookups) < 2:
+        raise AnchorError(f"_load_config: {len(rb)} deprecated-name resolution blocks found, 2 expected")
+    fl6 = Flow(f.node, resolver=Resolver(f.node)).run()
+    exits = [x for x in ast.walk(f.node) if isinstance(x, (ast.Continue, ast.Break, ast.Return))]
+    for i, (lk, r) in enumerate(zip(lookups, rb)):
         construct = f"Kconfig._load_config/resolution block #{i + 1} has no early exit of the line"
-        ex = [x for st in b.body for x in ast.walk(st) if isinstance(x, (ast.Continue, ast.Break, ast.Return))]
+        # an exit that is taken only once a replacement was looked up (its guards mention new_name / new_sym) between this
+        # site's lookup and the next site
+        hi = lookups[i + 1].lineno if i + 1 < len(lookups) else 10 ** 9
+        ex = [x for x in exits if lk.lineno <= x.lineno < hi and any(
+            {"new_name", "new_sym"} & {y.id for y in ast.walk(_pk(k)) if isinstance(y, ast.Name)} for k, _ in (fl6.guards_at(x) or set()))]
+        b = lk
         (ctx.bad(construct, f"`{type(ex[0]).__name__.lower()}` inside the resolution of a deprecated name: such a line is dropped where the same line "
                  "with the new name would be applied (the last line wins for new names, so it must for old ones)", f.loc(ex[0]))
          if ex else ctx.ok(construct, f.loc(b)))
